@@ -68,6 +68,7 @@ def normalise(sc):
     sc.setdefault("groups", [[n] for n in range(N)])
     sc.setdefault("detector", "none")
     sc.setdefault("exact", 0)
+    sc.setdefault("dec", 0)
     sc.setdefault("dev", [])
     return sc
 
@@ -107,8 +108,21 @@ def _import_ciw():
     return ciw
 
 
+def unit_of(sc):
+    return Fraction(1, 10 ** sc.get("dec", 0))
+
+
+def tv(sc, v):
+    """engine value of a tick count: int when the unit is 1, else the decimal float nearest to v * 10^-dec"""
+    u = unit_of(sc)
+    if u == 1:
+        return v
+    return float(Fraction(v) * u)
+
+
 def make_dists(ciw, sc, ctx):
     tk = Ticks()
+    unit = unit_of(sc)
 
     class ScriptDist(ciw.dists.Distribution):
         def __init__(self, kind, n, k, allowed):
@@ -124,7 +138,9 @@ def make_dists(ciw, sc, ctx):
             v = ctx.draw((self.kind, self.n, self.k), self.allowed)
             i = ind.id_number if ind is not None else 0
             if isinstance(v, (int, Fraction)) and not isinstance(v, bool):
-                y = (Fraction(v) if self.kind != "batch" else v)
+                y = (Fraction(v) * unit if self.kind != "batch" else v)
+                if self.kind != "batch" and unit != 1:
+                    v = float(y)
             else:
                 y = NONE  # fault-injection values (None, 'x', nan, ...) are logged as NONE
             ctx.step(self.kind, n=self.n, x=self.k, i=i, y=y,
@@ -227,13 +243,13 @@ def build(sc, ctx):
         elif nd["kind"] == "sched":
             s = nd["sched"]
             pre = {0: False, 1: "resume", 2: "restart", 3: "resample", 4: "reroute"}[s["pre"]]
-            servers.append(ciw.Schedule(numbers_of_servers=list(s["nums"]), shift_end_dates=[e for e in s["ends"]],
-                                        preemption=pre, offset=float(s["off"])))
+            servers.append(ciw.Schedule(numbers_of_servers=list(s["nums"]), shift_end_dates=[tv(sc, e) for e in s["ends"]],
+                                        preemption=pre, offset=float(tv(sc, s["off"]))))
         elif nd["kind"] == "slot":
             s = nd["slot"]
             pre = {0: False, 1: "resume", 2: "restart", 3: "resample"}[s["pre"]]
-            servers.append(ciw.Slotted(slots=[e for e in s["slots"]], slot_sizes=list(s["sizes"]),
-                                       capacitated=bool(s["cap"]), preemption=pre, offset=float(s["off"])))
+            servers.append(ciw.Slotted(slots=[tv(sc, e) for e in s["slots"]], slot_sizes=list(s["sizes"]),
+                                       capacitated=bool(s["cap"]), preemption=pre, offset=float(tv(sc, s["off"]))))
         else:
             raise ValueError(nd["kind"])
     kw["number_of_servers"] = servers
@@ -286,13 +302,16 @@ def build(sc, ctx):
 
 def to_cfg(sc):
     """the TLA+ configuration record: time-valued entries as Fractions (finalize scales them)"""
-    F = Fraction
+    unit = unit_of(sc)
+
+    def F(v):
+        return Fraction(v) * unit
 
     def fl(lst):
         return [F(v) for v in lst]
     cfg = {"N": sc["N"], "K": sc["K"], "P": len(set(sc["prio"])), "prio": list(sc["prio"]),
            "syscap": sc["syscap"], "T": F(sc["T"]) if sc["T"] < INF else INF, "stop": sc["stop"], "maxc": sc["maxc"],
-           "tracker": sc["tracker"], "observed": list(sc["observed"]), "groups": [list(g) for g in sc["groups"]], "detector": sc["detector"], "exact": sc["exact"], "dev": list(sc["dev"]),
+           "tracker": sc["tracker"], "observed": list(sc["observed"]), "groups": [list(g) for g in sc["groups"]], "detector": sc["detector"], "exact": sc["exact"], "dec": sc["dec"], "dev": list(sc["dev"]),
            "arrS": [[fl(c) for c in n] for n in sc["arrS"]],
            "batchS": [[list(c) for c in n] for n in sc["batchS"]],
            "svcS": [[fl(c) if c else [F(1)] for c in n] for n in sc["svcS"]],
